@@ -343,6 +343,12 @@ func (p c12) start(c *core.Ctx) {
 		wantLoads[name] = 2
 		c.Count("starts_with_field_wise_equal_loaders", 1)
 	}
+	if len(plain) > 0 && c.Rng.Intn(6) == 0 {
+		// one and the same post-processor instance is handed over twice (a shared module list passed twice): still one
+		// participant
+		extra = append(extra, extra[plain[c.Rng.Intn(len(plain))]])
+		c.Count("starts_with_a_post_processor_instance_registered_twice", 1)
+	}
 	opts := world.Options{Extra: extra, Loaders: loaders, NoObserver: allLazy}
 	if twin != nil {
 		// every loader is added through the adding option, one by one (the twin last)
